@@ -357,6 +357,9 @@ func (d *deriver) obligations(dv *Derived, formatter string) {
 				vr, vv := varOf(p)
 				okID := vr != nil && vr.ID == fmt.Sprintf("r%d_%d_%d", si, j, k)
 				dv.ob("G-DATA/results", "index-preserving", okID, "Returns[%d] of method %d/%d is built from %s, want the signature's result %d", k, i, j, interp.Show(vr), k)
+				if variadic := fieldOf(structOf(p), "Variadic"); variadic != nil {
+					dv.ob("G-DATA/results", "never-variadic", variadic == interp.Value(false), "Returns[%d].Variadic=%s of method %d/%d, want false: a result is never a variadic tail (every spelling that appends `...` to a variadic name would do so for the result)", k, interp.Show(variadic), i, j)
+				}
 				if vr != nil {
 					if rec := recOf(vv); rec != nil {
 						if sc == -1 {
